@@ -395,6 +395,14 @@ class Cache(Filter[Iterable[Any], Iterable[Any]]):
     def protected(self) -> bool:
         return self._protected
 
+    def __getstate__(self):
+        state = self.__dict__.copy()
+        if state['_iter'] is not None:
+            #a read in progress holds a live iterator which can't be pickled, the copy starts over
+            state['_iter'] = None
+            state['_cache'] = None
+        return state
+
     def filter(self, items: Iterable[Any]) -> Iterable[Any]:
         n_slice = self._n_slice
 
